@@ -2065,11 +2065,19 @@ def gen_history(ctx, g: Gen) -> dict:
     for _ in range(rng.randint(3, 10)):
         r = rng.random()
         st = {"doc": rng.randrange(max(1, n_docs))}
-        if r < 0.12:
+        if r < 0.10:
+            # docstring.value = ...: another text, or the current one with a paragraph appended
+            if rng.random() < 0.5:
+                st.update(op="setvalue", text=one_doc()[1])
+            else:
+                st.update(op="setvalue", append="\n\n" + g.prose(2, 5) + ".")
+        elif r < 0.16:
+            st.update(op="lines")
+        elif r < 0.24:
             st.update(op="mutate", ref=rng.randrange(8), options=history_options(rng, style))      # cfg[key] = value
-        elif r < 0.2:
+        elif r < 0.30:
             st.update(op="setopts", options=history_options(rng, style) if rng.random() < 0.8 else {})
-        elif r < 0.3:
+        elif r < 0.38:
             st.update(op="parsed")
         else:
             st.update(op="parse", options=history_options(rng, style) if rng.random() < 0.6 else {}, explicit_parser=rng.random() < 0.5)
@@ -2122,6 +2130,7 @@ def run_history(h: dict, ctx=None) -> tuple[list, list]:
         parents.append({"kind": "none"})
     if not docs:
         return [], None
+    texts0 = [t for _, t in docs]
     mirror = copy.deepcopy(heap)                     # what the dictionaries must be: only explicit writes change them
     heap0, refs0 = copy.deepcopy(heap), list(refs)
     bad, observed, mops, cached = [], [], [], {}
@@ -2145,6 +2154,21 @@ def run_history(h: dict, ctx=None) -> tuple[list, list]:
             refs[di] = len(heap) - 1
             mops.append(["setopts", di, _odict_sexp(new)])
             observed.append(None)
+            continue
+        if op == "setvalue":
+            # Docstring.value is a plain attribute: the new text is stored as it is (cleaned here, as the constructor would)
+            new_text = inspect.cleandoc((st["text"] if "text" in st else text + st["append"]).rstrip())
+            d.value = new_text
+            docs[di] = (d, new_text)
+            mops.append(["setvalue", di, new_text.split("\n")])
+            observed.append(None)
+            continue
+        if op == "lines":
+            got_lines = list(d.lines)
+            mops.append(["lines", di])
+            observed.append(("lines", got_lines))
+            if got_lines != inspect.cleandoc(text.rstrip()).split("\n"):
+                bad.append({"step": si, "text": text, "lines_read": got_lines, "lines_of_current_value": inspect.cleandoc(text.rstrip()).split("\n")})
             continue
         fresh = griffe.Docstring(text, lineno=d.lineno, endlineno=d.endlineno, parent=d.parent, parser=d.parser,
                                  parser_options=copy.deepcopy(mirror[refs[di]]))
@@ -2174,9 +2198,9 @@ def run_history(h: dict, ctx=None) -> tuple[list, list]:
         if d.parser_options is not heap[refs[di]]:
             bad.append({"docstring": di, "parser_options_object_replaced": True})
     every = [x for x in heap0 + [s_.get("options") or {} for s_ in h["steps"]]]
-    if ctx is not None and all(model_ok(t) for _, t in docs) and not (style == "google" and any(x.get("ignore_init_summary") for x in every)):
+    if ctx is not None and all(model_ok(json.dumps(m_)) for m_ in mops) and all(model_ok(t) for t in texts0) and not (style == "google" and any(x.get("ignore_init_summary") for x in every)):
         mdocs = [[ctx_sexp(p), p["kind"] == "init", p["kind"] in ("func", "gen", "init", "prop"), [style], r, doc_lines(t)]
-                 for (d, t), p, r in zip(docs, parents, refs0)]
+                 for t, p, r in zip(texts0, parents, refs0)]
         query = ["hist", [_odict_sexp(x) for x in heap0], mdocs, mops]
         heap_now, refs_now = copy.deepcopy(heap), list(refs)
 
@@ -2198,6 +2222,10 @@ def _history_compare(observed, mops, m_obs, m_heap, m_refs, heap, refs) -> list:
                     ties.append({"op": mops[si], "model": mob, "impl": "no result"})
                 continue
             got, pobj = ob
+            if got == "lines":
+                if mob != ["lines", pobj]:
+                    ties.append({"op": mops[si], "model": mob, "impl": ["lines", pobj]})
+                continue
             impl = ["res", ["ok", _norm_ann_secs(model_shape(got), pobj)]]
             mob2 = ["res", ["ok", _norm_ann_secs(mob[1][1], pobj)]] if mob[0] == "res" and mob[1][0] == "ok" else mob
             if mob2 != impl:
